@@ -348,7 +348,9 @@ func (conn *Conn) read(ctx *Context, async bool) {
 		if ctx.Error == shutdownMsg {
 			call.Error = ErrShutdown
 		} else {
-			call.Error = errors.New(ctx.Error)
+			// The header decoders may return a string that aliases the pooled
+			// read buffer, so the text is copied before the buffer is released.
+			call.Error = errors.New(string([]byte(ctx.Error)))
 		}
 		err = conn.codec.ReadResponseBody(nil, nil)
 		if err != nil {
